@@ -8,6 +8,7 @@ function": the check then searches for a failing input.
 -/
 import CueVerif.Gen.C13
 import CueVerif.Model.JsonSchemaSkel
+import CueVerif.Model.JsonSchemaCC
 namespace CueVerif.Bridge.C13
 open CueVerif
 
@@ -34,8 +35,50 @@ theorem pin_compile_matchIfBuiltin : Gen.C13.pin_compile_matchIfBuiltin = "8619d
 theorem pin_compile_checkNum : Gen.C13.pin_compile_checkNum = "414c01bd9a62d81d" := by decide
 theorem pin_compile_finalizeSelf : Gen.C13.pin_compile_finalizeSelf = "9d8b4353a2a9ef25" := by decide
 
+/-! session 3: the per-keyword builders transcribed by Model/JsonSchemaCC.lean (numbers, strings,
+arrays, constValue, schemaState and its helpers, the phase table `constraints`); validated against
+exactly these versions by the class-I `cc` stream (AST-level structural correspondence) -/
+theorem pin_jsonschema_constraintMinimum : Gen.C13.pin_jsonschema_constraintMinimum = "56b648dbb35951cd" := by decide
+theorem pin_jsonschema_constraintMaximum : Gen.C13.pin_jsonschema_constraintMaximum = "cb22489ab2cb67cb" := by decide
+theorem pin_jsonschema_constraintExclusiveMinimum : Gen.C13.pin_jsonschema_constraintExclusiveMinimum = "c6ddbc611e31b627" := by decide
+theorem pin_jsonschema_constraintExclusiveMaximum : Gen.C13.pin_jsonschema_constraintExclusiveMaximum = "6364c61838efc60b" := by decide
+theorem pin_jsonschema_constraintMultipleOf : Gen.C13.pin_jsonschema_constraintMultipleOf = "1f87f1a958b03111" := by decide
+theorem pin_jsonschema_constraintMinLength : Gen.C13.pin_jsonschema_constraintMinLength = "9f8406c461a4b817" := by decide
+theorem pin_jsonschema_constraintMaxLength : Gen.C13.pin_jsonschema_constraintMaxLength = "0d4f1c4362b7392a" := by decide
+theorem pin_jsonschema_constraintPattern : Gen.C13.pin_jsonschema_constraintPattern = "98e1124c463455c4" := by decide
+theorem pin_jsonschema_constraintMinItems : Gen.C13.pin_jsonschema_constraintMinItems = "9713878611ae32e3" := by decide
+theorem pin_jsonschema_constraintMaxItems : Gen.C13.pin_jsonschema_constraintMaxItems = "463995ed073a525b" := by decide
+theorem pin_jsonschema_constraintUniqueItems : Gen.C13.pin_jsonschema_constraintUniqueItems = "fbe8f282775d7982" := by decide
+theorem pin_jsonschema_constraintMinContains : Gen.C13.pin_jsonschema_constraintMinContains = "899fa7265b817c91" := by decide
+theorem pin_jsonschema_constraintMaxContains : Gen.C13.pin_jsonschema_constraintMaxContains = "19f9a563d2b10314" := by decide
+theorem pin_jsonschema_constraintContains : Gen.C13.pin_jsonschema_constraintContains = "e95a6aebcfeaeb2c" := by decide
+theorem pin_jsonschema_constraintItems : Gen.C13.pin_jsonschema_constraintItems = "5727055b8b7645c5" := by decide
+theorem pin_jsonschema_constraintPrefixItems : Gen.C13.pin_jsonschema_constraintPrefixItems = "067dfb43d2af56ec" := by decide
+theorem pin_jsonschema_setAdditionalItems : Gen.C13.pin_jsonschema_setAdditionalItems = "24aef46d3974f38f" := by decide
+theorem pin_jsonschema_constraintIf : Gen.C13.pin_jsonschema_constraintIf = "c40a41ea51d09781" := by decide
+theorem pin_jsonschema_constraintThen : Gen.C13.pin_jsonschema_constraintThen = "7b0b838d549c3c90" := by decide
+theorem pin_jsonschema_constraintElse : Gen.C13.pin_jsonschema_constraintElse = "6def8b38d2c0a4a6" := by decide
+theorem pin_jsonschema_state_constValue : Gen.C13.pin_jsonschema_state_constValue = "0ecb9f718fae98d6" := by decide
+theorem pin_jsonschema_state_schemaState : Gen.C13.pin_jsonschema_state_schemaState = "22d30d9ce80dfad8" := by decide
+theorem pin_jsonschema_state_schema : Gen.C13.pin_jsonschema_state_schema = "f8b988f1de12fa1d" := by decide
+theorem pin_jsonschema_isTop : Gen.C13.pin_jsonschema_isTop = "ca64b5037e3ac3de" := by decide
+theorem pin_jsonschema_isErrorCall : Gen.C13.pin_jsonschema_isErrorCall = "189ecbec45814bf0" := by decide
+theorem pin_jsonschema_top : Gen.C13.pin_jsonschema_top = "9d9244ea73a82830" := by decide
+theorem pin_jsonschema_decoder_number : Gen.C13.pin_jsonschema_decoder_number = "9c9b9e64511545d9" := by decide
+theorem pin_jsonschema_decoder_uint : Gen.C13.pin_jsonschema_decoder_uint = "ac89ad7aada1a0af" := by decide
+theorem pin_jsonschema_uint64Value : Gen.C13.pin_jsonschema_uint64Value = "01ae1809f8740f3c" := by decide
+theorem pin_jsonschema_decoder_regexpValue : Gen.C13.pin_jsonschema_decoder_regexpValue = "b0cf4044ceac0375" := by decide
+theorem pin_jsonschema_constraints : Gen.C13.pin_jsonschema_constraints = "e3356e5c6178c012" := by decide
+
 /-- `coreToCUE` / `allTypes` as the model has them: number = int|float, seven kinds in all -/
 theorem model_coreToCUE_num : Skel.coreToCUE .num = [.int, .float] := rfl
 theorem model_allTypes : Skel.CKind.all.length = 7 := rfl
+
+/-- the phase table as the model has it (constraints_gen.go): phase 1 before 2 before 3 -/
+theorem model_phases :
+    CCm.phaseOf (.type []) = 1 ∧ CCm.phaseOf (.enum []) = 1 ∧ CCm.phaseOf (.minContains 0) = 1 ∧
+    CCm.phaseOf (.minimum ⟨0, 1⟩) = 2 ∧ CCm.phaseOf (.exclusiveMinimum ⟨0, 1⟩) = 1 ∧
+    CCm.phaseOf (.contains (.bool true)) = 2 ∧ CCm.phaseOf (.prefixItems []) = 2 ∧
+    CCm.phaseOf (.items (.bool true)) = 3 ∧ CCm.phaseOf (.allOf []) = 2 := by decide
 
 end CueVerif.Bridge.C13
